@@ -327,8 +327,8 @@ def extra(tier, seed, ctx, pool):
             v = verdicts[k + 1]['v']
             r = CaseResult(case_id=path)
             r.tags = ['shipped_example']
-            if v == 'plant_not_well_posed':
-                r.skipped = 'example_outside_topological_test'
+            if v == 'plant_not_well_posed' or v.startswith('skipped'):
+                r.skipped = 'example_outside_topological_test' if v == 'plant_not_well_posed' else v
                 yield (json.dumps({'example': path}), r)
                 continue
             if v != 'ok':
@@ -368,7 +368,7 @@ def extra(tier, seed, ctx, pool):
         counts[v] = counts.get(v, 0) + 1
         r = CaseResult(case_id=f'plant{k}')
         r.tags = ['planted', f'nodes:{len(phi)}', 'branches>=10' if len(br) >= 10 else 'branches<10']
-        if v == 'plant_not_well_posed':
+        if v == 'plant_not_well_posed' or v.startswith('skipped'):
             r.skipped = v           # e.g. the balancing made a node hang on current sources only: not in the domain
             yield (json.dumps({'plant': k}), r)
             continue
